@@ -113,6 +113,23 @@ def dims_of(ty, consts):
 LIST_PASS = {"iter", "into_iter", "iter_mut", "cloned", "copied", "as_slice", "as_mut_slice", "to_vec", "by_ref", "column_iter_mut_"}
 
 
+def range_bounds(interp, node, length):
+    """(lo, hi) of a Range / RangeTo / RangeFrom / RangeFull struct expression, with concrete integer bounds."""
+    x = peel(node)
+    if x.get("k") == "Struct" and "ops::Range" in x.get("def", ""):
+        d = {f["name"]: interp.ev(f["e"]) for f in x.get("fields", [])}
+        lo, hi = d.get("start", sp.Integer(0)), d.get("end", sp.Integer(length))
+        if getattr(lo, "is_Integer", False) and getattr(hi, "is_Integer", False):
+            return int(lo), int(hi)
+    if x.get("k") == "Call" and (callee(x) or "").endswith("RangeInclusive::<Idx>::new"):
+        lo, hi = interp.ev(x["args"][0]), interp.ev(x["args"][1])
+        if getattr(lo, "is_Integer", False) and getattr(hi, "is_Integer", False):
+            return int(lo), int(hi) + 1
+    if x.get("k") in ("Path", "Struct") and "RangeFull" in (x.get("def") or ""):
+        return 0, length
+    raise sym.Unsupported(node, "range with non-constant bounds")
+
+
 class NInterp(sym.Interp):
     def __init__(self, F, body, consts=None):
         self.consts = dict(consts or {})
@@ -214,7 +231,7 @@ class NInterp(sym.Interp):
         if name in LIST_PASS or name in ("row_iter", "column_iter", "column", "row", "set_column", "set_row", "enumerate", "skip", "take", "rev",
                                           "zip", "map", "len", "ncols", "nrows", "collect", "push", "norm", "norm_squared", "column_iter_mut",
                                           "row_iter_mut", "fill", "dot", "fold", "sum", "scale", "component_mul", "clone_owned", "into_owned", "back", "front",
-                                          "push_back", "pop_front", "clear", "is_empty", "clone", "copy_from"):
+                                          "push_back", "pop_front", "clear", "is_empty", "clone", "copy_from", "range"):
             recv = self.ev(n["recv"])
             r = self.container_method(n, name, recv)
             if r is not NotImplemented:
@@ -285,7 +302,16 @@ class NInterp(sym.Interp):
                     raise sym.Unsupported(n, "back/front of an empty deque")
                 return sym.Variant("Some", [v.items[-1 if name == "back" else 0]])
             if name in ("iter", "clone"):
+                for i_ in range(len(v.items)):
+                    v.op("index", i_, n)
                 return list(v.items)
+            if name == "range":
+                lo, hi = range_bounds(self, n["args"][0], len(v.items))
+                if not (0 <= lo <= hi <= len(v.items)):
+                    raise sym.Unsupported(n, "deque range %d..%d out of the modelled length %d" % (lo, hi, len(v.items)))
+                for i_ in range(lo, hi):
+                    v.op("index", i_, n)        # a formula read of that history entry
+                return list(v.items[lo:hi])
         if isinstance(v, IndexedVec):
             if name in ("as_slice", "clone", "clone_owned", "as_mut_slice"):
                 return v.value() if name != "clone" else IndexedVec(v.base, v.deltas)
@@ -353,6 +379,13 @@ class NInterp(sym.Interp):
 
     def ev_Index(self, n):
         base = self.ev(n["e"])
+        ix = peel(n["i"])
+        if isinstance(base, (list, MatVal)) and (ix.get("k") == "Struct" and "ops::Range" in ix.get("def", "")):
+            items = base.col_major() if isinstance(base, MatVal) else base
+            lo, hi = range_bounds(self, n["i"], len(items))
+            if not (0 <= lo <= hi <= len(items)):
+                raise sym.Unsupported(n, "slice %d..%d out of length %d" % (lo, hi, len(items)))
+            return list(items[lo:hi])
         if isinstance(base, DequeVal):
             idx = self.ev(n["i"])
             if getattr(idx, "is_Integer", False):
